@@ -89,7 +89,10 @@ fn gen_step(s: &GenState, op: &GenOp, max_len: u64, max_pending: u8) -> Option<G
     let ps = programs();
     match *op {
         GenOp::Ingest(p) => {
-            if len(&s.rt, wl(1)) >= max_len || s.pending >= max_pending {
+            // up to 2 intents per tick while the history is shorter than `max_pending` ticks
+            // (quick: first tick only, thorough: first two ticks), single intents later
+            let mp = if len(&s.rt, wl(1)) < max_pending as u64 { 2 } else { 1 };
+            if len(&s.rt, wl(1)) >= max_len || s.pending >= mp {
                 return None;
             }
             let mut n = s.clone();
@@ -425,6 +428,10 @@ impl Out {
 struct Cfg {
     depth: usize,
     fork_depth: usize,
+    rerecorded_fork_depth: usize,
+    /// run the strand-fork + diverging-commit continuation only for checkpoint subsets of at most
+    /// this many checkpoints (plus the full subset)
+    diverge_max_ckpts: u32,
     only_mask: Option<u32>,
 }
 
@@ -518,17 +525,32 @@ fn cursor_search(
                     pin,
                 };
                 for p in path {
-                    let _ = apply_real(&mut c, p, prov, base);
                     let _ = m.apply(p);
                 }
-                let got = apply_real(&mut c, op, prov, base);
+                let mut full = path.clone();
+                full.push(*op);
+                let got = match mc::catch(|| {
+                    for p in path {
+                        let _ = apply_real(&mut c, p, prov, base);
+                    }
+                    apply_real(&mut c, op, prov, base)
+                }) {
+                    Ok(g) => g,
+                    Err(msg) => {
+                        out.transitions += 1;
+                        let head: String = msg.chars().take(60).collect();
+                        out.violations.push((
+                            format!("c07:{}:panic during seek/step:{head}", ctx.site_class()),
+                            json!({"case": ctx.case(&full), "panic": msg}),
+                        ));
+                        continue;
+                    }
+                };
                 let (want, seek) = m.apply(op);
                 out.transitions += 1;
                 out.traces += 1;
                 out.evals += 1;
                 out.o(&outcome_name(&got));
-                let mut full = path.clone();
-                full.push(*op);
                 // vacuity bookkeeping
                 let mut interesting = false;
                 if let Some((from, to)) = seek {
@@ -684,6 +706,16 @@ fn replay_all(
 
 fn analyze(h: &History, cfg: Cfg) -> Out {
     let mut out = Out::default();
+    let timing = std::env::var("C07_TIMING").is_ok();
+    let mut t_mark = std::time::Instant::now();
+    macro_rules! lap {
+        ($name:expr) => {
+            if timing {
+                out.c(concat!("us_", $name), t_mark.elapsed().as_micros() as u64);
+                t_mark = std::time::Instant::now();
+            }
+        };
+    }
     let hs = gen_enc(&h.ops);
     let w = wl(1);
     let n = (h.live.len() - 1) as u64;
@@ -772,6 +804,7 @@ fn analyze(h: &History, cfg: Cfg) -> Out {
             out.evals += 1;
         }
 
+        lap!("refs_and_live");
         // checkpoint-free forks: reference for children (and they must equal the parent's prefix)
         let mut child_refs: Vec<Option<Vec<WorldlineState>>> = Vec::new();
         for f in 0..n {
@@ -807,6 +840,7 @@ fn analyze(h: &History, cfg: Cfg) -> Out {
             }
         }
 
+        lap!("child_refs");
         // diverged-child references (mask 0) are filled on first use
         let mut div_refs: BTreeMap<u64, Vec<WorldlineState>> = BTreeMap::new();
 
@@ -854,12 +888,14 @@ fn analyze(h: &History, cfg: Cfg) -> Out {
                 out.c("checkpoint_subsets_with_interior_checkpoint", 1);
             }
 
+            lap!("checkpoint_setup");
             // (i) the worldline itself: full menu on the real variant, reduced on the re-recorded
             let ctx = Ctx { hist: &hs, variant, site: "cursor".into(), mask };
             cursor_search(
                 &mut out, &ctx, &pc, w, base, n, &ckpts, &refs, &refs_s, &engine, &roots,
                 cfg.depth, real_variant, n + 1,
             );
+            lap!("parent_search");
             // replay_worldline_state_at with checkpoints, every target
             for t in 0..=n {
                 out.evals += 1;
@@ -891,6 +927,7 @@ fn analyze(h: &History, cfg: Cfg) -> Out {
                 )),
             }
 
+            lap!("replay_at");
             // (ii) store-level forks at every tick
             for f in 0..n {
                 let Some(cref) = &child_refs[f as usize] else { continue };
@@ -926,7 +963,7 @@ fn analyze(h: &History, cfg: Cfg) -> Out {
                 let ctx = Ctx { hist: &hs, variant, site: format!("fork-child@{f}"), mask };
                 cursor_search(
                     &mut out, &ctx, &pf, child, base, f + 1, &want, &refs, cref, &engine,
-                    &roots, cfg.fork_depth, false, f + 1,
+                    &roots, if real_variant { cfg.fork_depth } else { cfg.rerecorded_fork_depth }, false, f + 1,
                 );
                 // the source worldline is untouched by the fork
                 if ProvenanceStore::entry(&pf, w, wt(n - 1)) != ProvenanceStore::entry(&pc, w, wt(n - 1))
@@ -951,13 +988,15 @@ fn analyze(h: &History, cfg: Cfg) -> Out {
                 }
             }
 
+            lap!("fork_children");
             // (iii) real strand fork + one diverging commit on the child (real variant only:
             //       the runtime appends to its own provenance)
-            if real_variant {
+            if real_variant && (mask.count_ones() <= cfg.diverge_max_ckpts || mask + 1 == (1u32 << (n + 1))) {
                 for f in 0..n {
                     diverge(&mut out, &engine, h, &hs, mask, &ckpts, f, &refs_s, &mut div_refs);
                 }
             }
+            lap!("diverge");
         }
     }
     if out.sample.is_none() {
@@ -1136,7 +1175,7 @@ fn generate(r: &Report, max_len: u64, alphabet: u8, max_pending: u8) -> Vec<Hist
     let mut ops: Vec<GenOp> = (0..alphabet).map(GenOp::Ingest).collect();
     ops.push(GenOp::Tick);
     let mut frontier: Vec<(GenState, Vec<GenOp>)> = vec![(init, Vec::new())];
-    let max_depth = (max_len as usize) * (max_pending as usize + 1);
+    let max_depth = (max_len as usize) * 3;
     for _ in 0..max_depth {
         if frontier.is_empty() {
             break;
@@ -1178,7 +1217,7 @@ fn generate(r: &Report, max_len: u64, alphabet: u8, max_pending: u8) -> Vec<Hist
 fn rebuild(ops: &[GenOp]) -> Option<History> {
     let mut s = gen_init();
     for op in ops {
-        s = gen_step(&s, op, 64, 8)?;
+        s = gen_step(&s, op, 64, 64)?;
     }
     Some(History {
         ops: ops.to_vec(),
@@ -1212,9 +1251,10 @@ fn merge(r: &Report, o: Out) {
 
 fn main() {
     let r = Report::new("C07", Level::ModelChecking);
+    mc::quiet_panics();
     r.rule(
         "histories: every distinct provenance of length 1..=L reachable by BFS over {ingest(program i), tick} on the real \
-         runtime (program alphabet writes different slots; <=2 intents per tick); per history x {real, re-recorded-with-outputs} \
+         runtime (program alphabet writes different slots; <=2 intents in the first tick (thorough: first two ticks), 1 later); per history x {real, re-recorded-with-outputs} \
          x EVERY subset of checkpoint ticks {0..=len}: explicit-state search over cursor ops {seek_to(t) t<=len+2, step() in \
          every PlaybackMode incl. Seek{t,Pause|Play}} from a fresh cursor, on the worldline and on ProvenanceService::fork \
          children at every tick, plus fork_strand + one diverging commit + all seek pairs on the child. A case is non-trivial \
@@ -1232,7 +1272,7 @@ fn main() {
         let mask = case["checkpoint_mask"].as_u64().map(|m| m as u32);
         match rebuild(&gen_dec(hs)) {
             Some(h) => {
-                let o = analyze(&h, Cfg { depth: 3, fork_depth: 2, only_mask: mask });
+                let o = analyze(&h, Cfg { depth: 3, fork_depth: 2, rerecorded_fork_depth: 2, diverge_max_ckpts: 64, only_mask: mask });
                 println!("[C07] replay of history '{hs}' mask {mask:?}: {} violation(s)", o.violations.len());
                 for (s, d) in o.violations.iter().take(5) {
                     println!("[C07]   {s}  {d}");
@@ -1295,9 +1335,11 @@ fn main() {
     let cfg = Cfg {
         depth: r.pick(2, 3),
         fork_depth: r.pick(2, 3),
+        rerecorded_fork_depth: r.pick(1, 2),
+        diverge_max_ckpts: r.pick(1, 64),
         only_mask: None,
     };
-    let mut hs = generate(&r, max_len, alphabet, 2);
+    let mut hs = generate(&r, max_len, alphabet, r.pick(1, 2));
     // shortest first, then by op string: deterministic order
     hs.sort_by(|a, b| (a.live.len(), gen_enc(&a.ops)).cmp(&(b.live.len(), gen_enc(&b.ops))));
     r.counter("histories", hs.len() as u64);
@@ -1316,7 +1358,7 @@ fn main() {
     while !rest.is_empty() {
         let take = rest.len().min(32);
         let chunk: Vec<History> = rest.drain(..take).collect();
-        if r.over_budget_frac(0.9) {
+        if r.over_budget_frac(0.9) || r.elapsed_s() > r.pick(200.0, 1500.0) {
             r.cap_hit(&format!(
                 "analysed {done} of {total} histories (shortest first) before the wall cap"
             ));
@@ -1325,7 +1367,22 @@ fn main() {
         let k = chunk.len();
         let outs: Vec<(u64, Out)> = chunk
             .into_par_iter()
-            .map(|h| ((h.live.len() - 1) as u64, analyze(&h, cfg)))
+            .map(|h| {
+                let n = (h.live.len() - 1) as u64;
+                let o = match mc::catch(|| analyze(&h, cfg)) {
+                    Ok(o) => o,
+                    Err(msg) => {
+                        let mut o = Out::default();
+                        let head: String = msg.chars().take(60).collect();
+                        o.violations.push((
+                            format!("c07:panic while replaying/forking a runtime-recorded history:{head}"),
+                            json!({"case": {"history": gen_enc(&h.ops)}, "panic": msg}),
+                        ));
+                        o
+                    }
+                };
+                (n, o)
+            })
             .collect();
         for (n, o) in outs {
             expected_forks += 2 * n * (1u64 << (n + 1));
